@@ -29,12 +29,12 @@ def correlation_centroid(im, ref, threshold=0., padding=1):
     elif len(im.shape) == 2:
         ny, nx = im.shape
         nt = 1
-        im -= im.min()
-        im.shape = (1, ny, nx)
+        # work on a copy: the caller's image must not be modified
+        im = (im - im.min()).reshape(1, ny, nx)
     else:
         raise ValueError("Incorrect number of dimensions in image array")
 
-    ref -= ref.min()
+    ref = ref - ref.min()
 
     centroids = numpy.zeros((2, nt))
     for frame in range(nt):
@@ -75,6 +75,7 @@ def centre_of_gravity(img, threshold=0, min_threshold=0, **kwargs):
             thres = numpy.maximum(threshold*img.max(-1).max(-1), [min_threshold]*img.shape[0])
             img_temp = (img.T - thres).T
             zero_coords = numpy.where(img_temp < 0)
+            img = img.copy()   # do not zero pixels in the caller's stack
             img[zero_coords] = 0
 
     if len(img.shape) == 2:
@@ -110,15 +111,15 @@ def brightest_pixel(img, threshold, **kwargs):
 
     if len(img.shape)==2:
         pxlValue = numpy.sort(img.flatten())[-nPxls]
-        img-=pxlValue
+        img = img - pxlValue
         img = img.clip(0, img.max())
 
     elif len(img.shape)==3:
         pxlValues = numpy.sort(
                         img.reshape(img.shape[0], img.shape[-1]*img.shape[-2])
                         )[:,-nPxls]
-        img[:]  = (img.T - pxlValues).T
-        img = img.clip(0, img.max(), out=img)
+        img = (img.T - pxlValues).T
+        img = img.clip(0, img.max())
 
     return centre_of_gravity(img)
 
